@@ -24,6 +24,7 @@ LEADING = ['#4c', '4#c', 'q', 'L', '4L', ';']
 BAD_CHORD = ['4c 4', '4c  4e', '4c 4€e']
 TAIL_FIXED = ['4czz', '=1zz', '*clefG2zz', '4c##-', '4cLzz', '4rzz', '*M4/4zz', '4c 4ezz']
 TRAILING = ['4c4', 'c4']
+NULL_LIKE = ['..', '...', '.*', '*.', '. .', '*.*', '.. .']
 # separator characters inside malformed text: (text, family)
 SEPARATOR = [('4c@', 'tail'), ('a@b', 'tail'), ('4zz@', 'strict'), ('@', 'strict'), ('4c·', 'strict'), ('4·zz', 'strict'), ('·', 'strict')]
 
@@ -53,7 +54,10 @@ def malformed_for(rng, carrier: str, kinds=None):
             or carrier.startswith('*>')):
         carrier = '4c'
     kind = seeds.weighted(rng, [('unlexable-adjacent', 6), ('truncated', 3), ('wrong-order-leading', 2), ('bad-chord', 1.5),
-                                ('garbage-appended', 4), ('separator', 1.5), ('wrong-order-trailing', 1)]) if kinds is None else rng.choice(kinds)
+                                ('garbage-appended', 4), ('separator', 1.5), ('wrong-order-trailing', 1), ('null-like', 1.2)]) if kinds is None else rng.choice(kinds)
+    if kind == 'null-like':
+        # made of placeholder characters only, but not a placeholder: must not be mistaken for an empty cell anywhere
+        return rng.choice(NULL_LIKE), kind, 'tail'
     if kind == 'unlexable-adjacent':
         u = rng.choice(UNLEXABLE)
         pos = rng.choice(['start', 'mid', 'end'])
@@ -175,7 +179,7 @@ class C12:
                 blank = sorted(erng.randrange(1, first + 1) for _ in range(n_blank))
         return {'property': self.PROPERTY, 'mode': 'doc', 'config': 'fault_free' if fault_free else 'fault_injecting',
                 'doc': doc.to_json(), 'eol': erng.choice(['\n', '\n', '\n', '\r\n']), 'final_newline': erng.random() < 0.8,
-                'faults': faults, 'blank_lines': blank}
+                'faults': faults, 'blank_lines': blank, 'warnings': 'error' if erng.random() < 0.08 else 'default'}
 
     def _gen_history(self, st):
         rng, frng, erng = st['ops'], st['faults'], st['env']
@@ -195,7 +199,7 @@ class C12:
         order2 = list(range(n))
         rng.shuffle(order2)
         return {'property': self.PROPERTY, 'mode': 'history', 'config': 'fault_free' if fault_free else 'fault_injecting',
-                'header': header, 'tokens': toks, 'order2': order2}
+                'header': header, 'tokens': toks, 'order2': order2, 'warnings': 'error' if erng.random() < 0.08 else 'default'}
 
     def summarize(self, plan):
         if plan['mode'] == 'history':
@@ -206,9 +210,13 @@ class C12:
 
     # ---------------------------------------------------------------- execution
     def execute(self, plan):
-        if plan['mode'] == 'history':
-            return self._exec_history(plan)
-        return self._exec_doc(plan)
+        import warnings
+        with warnings.catch_warnings():
+            # interpreter environment knob: some runs treat every warning as an error (python -W error)
+            warnings.simplefilter('error' if plan.get('warnings') == 'error' else 'ignore')
+            if plan['mode'] == 'history':
+                return self._exec_history(plan)
+            return self._exec_doc(plan)
 
     @staticmethod
     def _render(doc, eol, final_newline, faults, blank_lines):
